@@ -11,10 +11,15 @@ import (
 
 var Registry = map[string]func(*ev.Run){
 	"C03": func(r *ev.Run) { RunPairs(r, pairTier(r)) },
+	"C01": RunRtPairs,
+	"C02": RunRtPairs,
+	"C04": RunRtPairs,
+	"C18": RunRtPairs,
 	"C13": func(r *ev.Run) { RunPairs(r, pairTier(r)) },
 }
 
 var Workers = map[string]func(w *pool.W, shard, n int, args []string) error{
+	"rtpairs": func(w *pool.W, shard, n int, args []string) error { return RtPairWorker(w, shard, n, args[0]) },
 	"pairs": func(w *pool.W, shard, n int, args []string) error { return PairWorker(w, shard, n, args[0]) },
 }
 
